@@ -206,13 +206,18 @@ pub fn run(ctx: &Ctx) -> Report {
             let m = 1usize << b;
             rep.config(format!("len-mismatch(b={})", b));
             try_doc(&doc(&regs_json(m, 5), &json!(b), &bh), true, rep, &format!("valid document b={}", b));
-            for len in [0usize, 1, m - 1, m + 1, m / 2, m * 2, 16, 1 << 18, (1 << 18) + 1] {
+            for len in [0usize, 1, m - 1, m + 1, m / 2, m * 2, 3 * m, 5 * m, 6 * m, 3 * m / 2, 16, 48, 1 << 18, (1 << 18) + 1] {
                 if len == m {
                     continue;
                 }
                 for fill in [0u8, 9] {
                     try_doc(&doc(&regs_json(len, fill), &json!(b), &bh), false, rep, &format!("b={} with {} registers", b, len));
                 }
+            }
+            // b values that alias the valid precision when shifted or truncated (64+b, 128+b, 2^32+b,
+            // 2^32*k+b) together with exactly 2^b registers
+            for bb in [64 + b as u64, 128 + b as u64, 256 + b as u64, (1u64 << 32) + b as u64, (1u64 << 33) + b as u64, (1u64 << 63) + b as u64, u64::MAX - 63 + b as u64] {
+                try_doc(&doc(&regs_json(m, 5), &json!(bb), &bh), false, rep, &format!("b={} (aliases {}) with {} registers", bb, b, m));
             }
             // field-level corruptions
             let good_regs = regs_json(m, 3);
